@@ -213,6 +213,8 @@ class ExplosiveArc(ExactSolver):
 
         if self.alpha < 0:
             raise ValueError('Alpha must be >= 0')
+        if self.alpha == 0:
+            raise ValueError('Alpha = 0 is not supported (dt ~ dx**2/alpha)')
 
         if self.t_f <= 0:
             raise ValueError('Final time must be positive')
